@@ -169,6 +169,9 @@ def run(ctx, chk):
     counts = list(range(0, 256)) if ctx.tier == "thorough" else list(range(0, 35)) + [63, 64, 127, 128, 200, 255]
     exact_shift_rule(ctx, chk, tabs, counts)
 
+    chk.rule("C02.R13", "SF, ZF and PF of the logic ops and shifts are computed from the value that is returned (PF through a parity helper decided on the bit domain)", floor=12)
+    result_flag_rule(ctx, chk, tabs)
+
     # ---- productions: NOT exactness, TEST no write-back, frames, count width
     from units import address_overrides
     ov = address_overrides(G)
@@ -534,3 +537,103 @@ def exact_shift_rule(ctx, chk, tabs, counts):
                 chk.ok("C02.R12", unit, f"{len([c for c in counts if c])} counts x input partitions ({n_ok} runs): result bits, CF{', SF' if m in ('shl', 'sal', 'shr', 'sar') else ''} and OF@1 equal the single-step reference")
             elif not bad:
                 chk.ok("C02.R12", unit + ":partial", f"{n_ok} runs, no exact bit differs from the reference", nontrivial=False)
+
+
+def result_flag_rule(ctx, chk, tabs):
+    """C02.R13.  SF, ZF and PF of the logic ops and of the shifts are "set from the result".  The result itself is decided
+    elsewhere (R1/R2 bit-exact for logic ops, R12 for every shift count), so what is left is that the three flags look at
+    *that value*: the booleans handed to the flag routine (`bool_flag_map` finds which sets which) must be
+      ZF: `x == 0`   SF: `x >= 2^(w-1)` / `x & 2^(w-1) != 0` / `(x as signed) < 0`   PF: parity helper applied to x
+    with x bit-for-bit the value the helper returns (same value instance in the abstract run; shifts are run with a
+    count of 1..255 so that the count-0 early return is not joined in).  The parity helper is decided on the bit
+    domain (xor-folds are exact linear forms over GF(2))."""
+    from rules_c01 import bool_flag_map, parity_verdict
+    P = ctx.program
+    done = set()
+    for nt in ("byte_binary_logical", "word_binary_logical", "byte_shift_rotate", "word_shift_rotate"):
+        w = 8 if nt.startswith("byte") else 16
+        for m, fid in sorted((k_, v) for k_, v in tabs[nt].items() if isinstance(k_, str)):
+            if fid is None or fid not in P.fns or fid in done or m in ("rol", "ror", "rcl", "rcr"):
+                continue
+            done.add(fid)
+            fn = P.fns[fid]
+            unit = f"{m}.{'b' if w == 8 else 'w'}"
+            where = fn_where(fn)
+            names = [l["name"] for l in fn["locals"][1:fn["argc"] + 1]]
+            kw = {"ranges": {names[-1] or "arg3": (1, 255)}} if "shift" in nt else {}
+            try:
+                s = summarize_fn(ctx, fn, **kw)
+            except Unsupported as e:
+                chk.undecided_("C02.R13", unit, str(e))
+                continue
+            res = s.ret
+            if s.st.dead or res is None or res.kind != "int":
+                chk.undecided_("C02.R13", unit, "no integer result")
+                continue
+            if m == "test":
+                res = None   # TEST returns its first operand; the flags look at the conjunction: identity with the return does not apply
+            decided = {}
+            for e in s.I.events:
+                if e.kind == "call" and getattr(e, "fref", None) and e.fref.get("local"):
+                    for bit, (path, pol) in bool_flag_map(ctx, e).items():
+                        v = e.args[path[0]] if len(path) == 1 else e.args[path[0]].fields[path[1]]
+                        decided[bit] = (v, pol)
+            top = 1 << (w - 1)
+            for f in ("ZF", "SF", "PF"):
+                u = f"{unit}:{f}"
+                if FBIT[f] not in decided:
+                    chk.undecided_("C02.R13", u, "no boolean handed to a flag routine decides this flag")
+                    continue
+                v, pol = decided[FBIT[f]]
+                pr = getattr(v, "pred", None)
+                # the *form* of the test is judged first, whatever value it looks at: ZF must be `x == 0`, SF the top bit of a
+                # w-bit x.  A comparison of x with a constant denotes a set of x values; it must be exactly {0} / [2^(w-1), 2^w-1].
+                if f in ("ZF", "SF") and pr is not None and pr[0] == "cmp" and pr[3].kind == "int" and pr[3].is_const() and pr[2].kind == "int" \
+                        and not pr[2].signed and pr[2].w == w and not (getattr(pr[2], "pred", None) and pr[2].pred[0] == "bit"):
+                    c_ = pr[3].lo
+                    full = range(0, 1 << w)
+                    sat = {"Eq": lambda x: x == c_, "Ne": lambda x: x != c_, "Lt": lambda x: x < c_, "Le": lambda x: x <= c_,
+                           "Gt": lambda x: x > c_, "Ge": lambda x: x >= c_}[pr[1]]
+                    wantf = (lambda x: x == 0) if f == "ZF" else (lambda x: x >= top)
+                    bad_x = None
+                    for x_ in (0, 1, top - 1, top, top + 1, (1 << w) - 1, c_ - 1 if c_ > 0 else 0, c_, min(c_ + 1, (1 << w) - 1)):
+                        if 0 <= x_ < (1 << w) and (bool(sat(x_)) == bool(pol)) != wantf(x_):
+                            bad_x = x_
+                            break
+                    if bad_x is not None:
+                        chk.violation("C02.R13", unit, f"{f}-test", f"{fn['name']}: {f} is set iff the tested value x satisfies `x {pr[1]} {c_}`"
+                                      f"{'' if pol else ' (negated)'}; for x = {bad_x:#x} that is {int(bool(sat(bad_x)) == bool(pol))}, but {f} must be "
+                                      f"{int(wantf(bad_x))} ({'x == 0' if f == 'ZF' else 'the top bit of x'})", where, witness=f"result {bad_x:#x}")
+                        continue
+                if res is None:
+                    chk.undecided_("C02.R13", u, "TEST: the tested value is not returned")
+                    continue
+                if f == "PF":
+                    k, t = parity_verdict(ctx, s, v, pol, None, {}, result_value=res)
+                    if k == "ok":
+                        chk.ok("C02.R13", u, t)
+                    elif k == "bad":
+                        chk.violation("C02.R13", unit, "PF-source", f"{fn['name']}: {t}", where)
+                    else:
+                        chk.undecided_("C02.R13", u, t)
+                    continue
+                x = None
+                form = None
+                if pr is not None and pr[0] == "cmp" and pol == 1:
+                    op, a_, b_ = pr[1], pr[2], pr[3]
+                    if f == "ZF" and op == "Eq" and b_.kind == "int" and b_.is_const() and b_.lo == 0:
+                        x, form = a_, "x == 0"
+                    elif f == "SF" and op == "Ge" and b_.kind == "int" and b_.is_const() and b_.lo == top:
+                        x, form = a_, f"x >= {top}"
+                    elif f == "SF" and op == "Gt" and b_.kind == "int" and b_.is_const() and b_.lo == top - 1:
+                        x, form = a_, f"x > {top - 1}"
+                    elif f == "SF" and op == "Ne" and b_.kind == "int" and b_.is_const() and b_.lo == 0 and getattr(a_, "pred", None) and a_.pred[0] == "bit" and a_.pred[2] == w - 1:
+                        x, form = a_.pred[1], f"x & {top} != 0"
+                    elif f == "SF" and op == "Lt" and b_.kind == "int" and b_.is_const() and b_.lo == 0 and a_.kind == "int" and a_.signed and a_.w == w:
+                        x, form = a_, "(x as signed) < 0"
+                if x is None:
+                    chk.undecided_("C02.R13", u, "the flag's boolean is not one of the recognised tests of a value")
+                elif x.kind == "int" and x.bits[:w] == res.bits[:w]:
+                    chk.ok("C02.R13", u, f"{form} with x the returned result")
+                else:
+                    chk.undecided_("C02.R13", u, f"{form}, but x is not visibly the returned result")
